@@ -67,6 +67,12 @@ func c12Prestate() *c12State {
 	}
 	s.child = parent + "/" + persisters.VerifComponent("C", 1, "ab_")
 	env.AddEntry(s.child, tar.TypeReg, 0, false, "")
+	// the directory's own name reused one level down, below the sibling: "/S/D" and "/S/D/z" contain
+	// "/D/" in the middle of their names but are not below "/D"
+	if s.sib+s.d != s.child {
+		env.AddEntry(s.sib+s.d, tar.TypeDir, 0, false, "")
+		env.AddEntry(s.sib+s.d+"/z", tar.TypeReg, 0, false, "")
+	}
 	return s
 }
 
